@@ -58,15 +58,17 @@ impl<'a, F: PrimeCharacteristicRing + Eq> ExecutionContext<'a, F> {
                 .ok_or(CircuitError::WitnessNotSet { witness_id: widx })
         }
 
+        // An unset slot (e.g. a withheld private input read by a non-primitive op) must be an
+        // error in optimized builds too: reading it unchecked is undefined behaviour and lets
+        // the run succeed from garbage when the slot is filled later by another op. Only the
+        // bounds check is skipped here.
         #[cfg(not(debug_assertions))]
-        unsafe {
-            Ok(self
-                .witness
-                .get_unchecked(idx)
-                .as_ref()
-                .unwrap_unchecked()
-                .dup())
-        }
+        // SAFETY: `idx` is derived from a `WitnessId` allocated against this `witness`
+        // vector at circuit compile time; the slot is guaranteed to exist.
+        unsafe { self.witness.get_unchecked(idx) }
+            .as_ref()
+            .map(p3_field::Dup::dup)
+            .ok_or(CircuitError::WitnessNotSet { witness_id: widx })
     }
 
     /// Set witness value at the given index.
